@@ -162,8 +162,8 @@ func runConc(scn string, G, N int) string {
 	}()
 	select {
 	case <-done:
-	case <-time.After(60 * time.Second):
-		return "deadlock: the goroutines did not finish within 60 s"
+	case <-time.After(10 * time.Minute): // bounds a hang only: the run is ~0.1 s of work, far from this under any load
+		return "deadlock: the goroutines did not finish within 10 minutes"
 	}
 	for g, p := range panics {
 		if p != "" {
